@@ -23,7 +23,7 @@
     anything else. [C16_fold_full] (a text none of whose lines asks for a
     continuation -- every newline follows an even number of backslashes -- is
     left alone) is FALSE of the code: [C16_fold_refuted] (class
-    trailing-backslash). With the proposed repair (notes/C16-fix-2.patch) it
+    trailing-backslash). With the proposed repair (notes/C16-fix-3.patch) it
     holds for all texts: [C16_fold_fixed_full]. *)
 From Cicada Require Import Base.Chars Base.Tag Model.Tokenizer Model.Cmds Model.Redirect Model.Rerender
   Proofs.TokenizerProofs Proofs.RerenderProofs Proofs.FoldProofs.
